@@ -92,23 +92,377 @@ theorem popN_spec : ∀ (k : Nat) (stack xs st' : List Stmt), popN k stack = som
       obtain ⟨e, hl⟩ := ih st ys st2 h1
       exact ⟨by simp [e], by simp [hl]⟩
 
+/-! ## declared notations: the table of body patterns -/
+
+/-- every body pattern of the table is notation-free -/
+def TabB0 (tab : NTab) : Prop := ∀ e ∈ tab, e.2.2.B0 = true
+/-- every body pattern of the table mentions the notation's own variables only -/
+def TabMv (tab : NTab) : Prop := ∀ e ∈ tab, ∀ id ∈ e.2.2.metavars, id ∈ e.2.1
+
+theorem list_lookup_mem {β : Type} : ∀ (l : List (Nat × β)) (a : Nat) (b : β), l.lookup a = some b → (a, b) ∈ l := by
+  intro l
+  induction l with
+  | nil => intro a b h; simp [List.lookup] at h
+  | cons x l ih =>
+    intro a b h
+    obtain ⟨k, v⟩ := x
+    simp only [List.lookup_cons] at h
+    by_cases hk : a = k
+    · subst hk
+      simp only [beq_self_eq_true, Option.some.injEq] at h
+      subst h; simp
+    · have : (a == k) = false := by simp [hk]
+      rw [this] at h
+      exact List.mem_cons_of_mem _ (ih a b h)
+
+theorem pylookup_zip_some : ∀ (keys : List Nat) (L : List NPat), L.length = keys.length → ∀ id ∈ keys,
+    ∃ q, Py.lookup (keys.zip L) id = some q := by
+  intro keys
+  induction keys with
+  | nil => intro L _ id h; simp at h
+  | cons k keys ih =>
+    intro L hl id hid
+    cases L with
+    | nil => simp at hl
+    | cons q L =>
+      simp only [List.length_cons, Nat.add_right_cancel_iff] at hl
+      by_cases hk : k = id
+      · exact ⟨q, by simp [Py.lookup, hk]⟩
+      · have : id ∈ keys := by
+          rcases List.mem_cons.mp hid with h | h
+          · exact absurd h.symm hk
+          · exact h
+        obtain ⟨q', hq'⟩ := ih L hl id this
+        exact ⟨q', by simp [Py.lookup, hk, hq']⟩
+
+/-- two calls of a notation whose arguments correspond under `δ` -/
+theorem pylookup_zip_inst (δ : VId → Option Pat) : ∀ (keys : List Nat) (L L' : List NPat),
+    L.length = keys.length → L'.length = keys.length →
+    L.map (fun q => Py.inst δ q.expand) = L'.map NPat.expand → ∀ id ∈ keys,
+    ∃ q q', Py.lookup (keys.zip L) id = some q ∧ Py.lookup (keys.zip L') id = some q' ∧
+      Py.inst δ q.expand = q'.expand := by
+  intro keys
+  induction keys with
+  | nil => intro L L' _ _ _ id h; simp at h
+  | cons k keys ih =>
+    intro L L' hl hl' hm id hid
+    cases L with
+    | nil => simp at hl
+    | cons q L =>
+      cases L' with
+      | nil => simp at hl'
+      | cons q' L' =>
+        simp only [List.length_cons, Nat.add_right_cancel_iff] at hl hl'
+        simp only [List.map_cons, List.cons.injEq] at hm
+        by_cases hk : k = id
+        · exact ⟨q, q', by simp [Py.lookup, hk], by simp [Py.lookup, hk], hm.1⟩
+        · have : id ∈ keys := by
+            rcases List.mem_cons.mp hid with h | h
+            · exact absurd h.symm hk
+            · exact h
+          obtain ⟨r, r', h1, h2, h3⟩ := ih L L' hl hl' hm.2 id this
+          exact ⟨r, r', by simp [Py.lookup, hk, h1], by simp [Py.lookup, hk, h2], h3⟩
+
+theorem plug_B0 (m : List (Nat × NPat)) (hm : ∀ kv ∈ m, kv.2.B0 = true) :
+    (p : NPat) → p.B0 = true → (plug m p).B0 = true
+  | .sym _, _ => by simp [plug, B0]
+  | .mv id ef sf ps ns hs, h => by
+    simp only [plug]
+    cases hl : Py.lookup m id with
+    | none => simpa using h
+    | some q => exact hm _ (Py.lookup_mem _ _ _ hl)
+  | .imp l r, h => by
+    simp only [B0, Bool.and_eq_true] at h
+    simp [plug, B0, plug_B0 m hm l h.1, plug_B0 m hm r h.2]
+  | .app l r, h => by
+    simp only [B0, Bool.and_eq_true] at h
+    simp [plug, B0, plug_B0 m hm l h.1, plug_B0 m hm r h.2]
+  | .evar _, h => by simp [B0] at h
+  | .svar _, h => by simp [B0] at h
+  | .ex _ _, h => by simp [B0] at h
+  | .mu _ _, h => by simp [B0] at h
+  | .esub _ _ _, h => by simp [B0] at h
+  | .ssub _ _ _, h => by simp [B0] at h
+  | .inst _ _, h => by simp [B0] at h
+
+/-- the metavariables of a call: those of the arguments, and those of the body that are not arguments -/
+theorem plug_metavars (m : List (Nat × NPat)) :
+    (p : NPat) → p.B0 = true → ∀ id ∈ (plug m p).metavars,
+      (∃ kv ∈ m, id ∈ kv.2.metavars) ∨ (id ∈ p.metavars ∧ Py.lookup m id = none)
+  | .sym _, _ => by simp [plug, NPat.metavars]
+  | .mv i ef sf ps ns hs, h => by
+    intro id hid
+    simp only [plug] at hid
+    cases hl : Py.lookup m i with
+    | none =>
+      rw [hl] at hid
+      simp only [NPat.metavars, List.mem_singleton] at hid
+      subst hid
+      exact Or.inr ⟨by simp [NPat.metavars], hl⟩
+    | some q =>
+      rw [hl] at hid
+      exact Or.inl ⟨_, Py.lookup_mem _ _ _ hl, hid⟩
+  | .imp l r, h => by
+    simp only [B0, Bool.and_eq_true] at h
+    intro id hid
+    simp only [plug, NPat.metavars, List.mem_append] at hid
+    rcases hid with hid | hid
+    · rcases plug_metavars m l h.1 id hid with h' | h'
+      · exact Or.inl h'
+      · exact Or.inr ⟨by simp [NPat.metavars, h'.1], h'.2⟩
+    · rcases plug_metavars m r h.2 id hid with h' | h'
+      · exact Or.inl h'
+      · exact Or.inr ⟨by simp [NPat.metavars, h'.1], h'.2⟩
+  | .app l r, h => by
+    simp only [B0, Bool.and_eq_true] at h
+    intro id hid
+    simp only [plug, NPat.metavars, List.mem_append] at hid
+    rcases hid with hid | hid
+    · rcases plug_metavars m l h.1 id hid with h' | h'
+      · exact Or.inl h'
+      · exact Or.inr ⟨by simp [NPat.metavars, h'.1], h'.2⟩
+    · rcases plug_metavars m r h.2 id hid with h' | h'
+      · exact Or.inl h'
+      · exact Or.inr ⟨by simp [NPat.metavars, h'.1], h'.2⟩
+  | .evar _, h => by simp [B0] at h
+  | .svar _, h => by simp [B0] at h
+  | .ex _ _, h => by simp [B0] at h
+  | .mu _ _, h => by simp [B0] at h
+  | .esub _ _ _, h => by simp [B0] at h
+  | .ssub _ _ _, h => by simp [B0] at h
+  | .inst _ _, h => by simp [B0] at h
+
+/-- instantiating a call = calling on the instantiated arguments, when the body mentions the notation's
+variables only -/
+theorem plug_inst (δ : VId → Option Pat) (keys : List Nat) (L L' : List NPat)
+    (hl : L.length = keys.length) (hl' : L'.length = keys.length)
+    (hm : L.map (fun q => Py.inst δ q.expand) = L'.map NPat.expand) :
+    (p : NPat) → p.B0 = true → (∀ id ∈ p.metavars, id ∈ keys) →
+    Py.inst δ (plug (keys.zip L) p).expand = (plug (keys.zip L') p).expand
+  | .sym _, _, _ => by simp [plug, expand, Py.inst]
+  | .mv i ef sf ps ns hs, _, hk => by
+    obtain ⟨q, q', h1, h2, h3⟩ := pylookup_zip_inst δ keys L L' hl hl' hm i (hk i (by simp [NPat.metavars]))
+    simp only [plug, h1, h2]
+    exact h3
+  | .imp l r, h, hk => by
+    simp only [B0, Bool.and_eq_true] at h
+    have h1 := plug_inst δ keys L L' hl hl' hm l h.1 (fun id hid => hk id (by simp [NPat.metavars, hid]))
+    have h2 := plug_inst δ keys L L' hl hl' hm r h.2 (fun id hid => hk id (by simp [NPat.metavars, hid]))
+    simp [plug, expand, Py.inst, h1, h2]
+  | .app l r, h, hk => by
+    simp only [B0, Bool.and_eq_true] at h
+    have h1 := plug_inst δ keys L L' hl hl' hm l h.1 (fun id hid => hk id (by simp [NPat.metavars, hid]))
+    have h2 := plug_inst δ keys L L' hl hl' hm r h.2 (fun id hid => hk id (by simp [NPat.metavars, hid]))
+    simp [plug, expand, Py.inst, h1, h2]
+  | .evar _, h, _ => by simp [B0] at h
+  | .svar _, h, _ => by simp [B0] at h
+  | .ex _ _, h, _ => by simp [B0] at h
+  | .mu _ _, h, _ => by simp [B0] at h
+  | .esub _ _ _, h, _ => by simp [B0] at h
+  | .ssub _ _ _, h, _ => by simp [B0] at h
+  | .inst _ _, h, _ => by simp [B0] at h
+
+theorem imageListT_length (db : DB) (tab : NTab) : ∀ xs : List Term, (imageListT db tab xs).length = xs.length
+  | [] => by simp [imageListT]
+  | x :: xs => by simp [imageListT, imageListT_length db tab xs]
+
+theorem substList_length (σ : List (Nat × Term)) : ∀ xs : List Term, (Term.substList σ xs).length = xs.length
+  | [] => by simp [Term.substList]
+  | x :: xs => by simp [Term.substList, substList_length σ xs]
+
 /-! ## the image is notation-free -/
 
 mutual
-theorem image_B0 (db : DB) : (t : Term) → (image db t).B0 = true
-  | .var v => by simp [image, PySt.phiN, B0]
-  | .imp a b => by simp [image, B0, image_B0 db a, image_B0 db b]
-  | .app a b => by simp [image, B0, image_B0 db a, image_B0 db b]
+theorem imageT_B0 (db : DB) (tab : NTab) (htab : TabB0 tab) : (t : Term) → (imageT db tab t).B0 = true
+  | .var v => by simp [imageT, PySt.phiN, B0]
+  | .imp a b => by simp [imageT, B0, imageT_B0 db tab htab a, imageT_B0 db tab htab b]
+  | .app a b => by simp [imageT, B0, imageT_B0 db tab htab a, imageT_B0 db tab htab b]
   | .con c xs => by
-    simp only [image]
-    exact imageApp_B0 db xs (.sym c) rfl
-theorem imageApp_B0 (db : DB) : (xs : List Term) → (acc : NPat) → acc.B0 = true →
-    (imageApp db acc xs).B0 = true
-  | [], acc, h => by simpa [imageApp] using h
+    simp only [imageT]
+    cases hlk : tab.lookup c with
+    | none => exact imageAppT_B0 db tab htab xs (.sym c) rfl
+    | some e =>
+      obtain ⟨keys, p⟩ := e
+      simp only []
+      split
+      · apply plug_B0 _ _ p (htab _ (list_lookup_mem _ _ _ hlk))
+        intro kv hkv
+        exact imageListT_B0 db tab htab xs kv.2 (List.of_mem_zip hkv).2
+      · exact imageAppT_B0 db tab htab xs (.sym c) rfl
+theorem imageAppT_B0 (db : DB) (tab : NTab) (htab : TabB0 tab) : (xs : List Term) → (acc : NPat) → acc.B0 = true →
+    (imageAppT db tab acc xs).B0 = true
+  | [], acc, h => by simpa [imageAppT] using h
   | x :: xs, acc, h => by
-    simp only [imageApp]
-    exact imageApp_B0 db xs _ (by simp [B0, h, image_B0 db x])
+    simp only [imageAppT]
+    exact imageAppT_B0 db tab htab xs _ (by simp [B0, h, imageT_B0 db tab htab x])
+theorem imageListT_B0 (db : DB) (tab : NTab) (htab : TabB0 tab) : (xs : List Term) →
+    ∀ q ∈ imageListT db tab xs, q.B0 = true
+  | [], q, h => by simp [imageListT] at h
+  | x :: xs, q, h => by
+    simp only [imageListT, List.mem_cons] at h
+    rcases h with rfl | h
+    · exact imageT_B0 db tab htab x
+    · exact imageListT_B0 db tab htab xs q h
 end
+
+theorem notTabFrom_B0 (db : DB) : ∀ (cs : List Ctor) (tab : NTab), TabB0 tab → TabB0 (db.notTabFrom tab cs)
+  | [], tab, h => by simpa [DB.notTabFrom] using h
+  | c :: cs, tab, h => by
+    simp only [DB.notTabFrom]
+    cases hb : c.body with
+    | none => exact notTabFrom_B0 db cs tab h
+    | some b =>
+      apply notTabFrom_B0 db cs
+      intro e he
+      rcases List.mem_append.mp he with he | he
+      · exact h e he
+      · simp only [List.mem_singleton] at he
+        subst he
+        exact imageT_B0 db tab h b
+
+theorem notTab_B0 (db : DB) : TabB0 db.notTab :=
+  notTabFrom_B0 db db.ctors [] (fun _ h => by simp at h)
+
+theorem image_B0 (db : DB) (t : Term) : (image db t).B0 = true := imageT_B0 db _ (notTab_B0 db) t
+
+theorem imageApp_B0 (db : DB) (xs : List Term) (acc : NPat) (h : acc.B0 = true) : (imageApp db acc xs).B0 = true :=
+  imageAppT_B0 db _ (notTab_B0 db) xs acc h
+
+/-! ## the metavariables of an image are those of the term's variables -/
+
+mutual
+theorem imageT_mv (db : DB) (tab : NTab) (hB : TabB0 tab) (hM : TabMv tab) : (t : Term) →
+    ∀ id ∈ (imageT db tab t).metavars, ∃ v ∈ Term.vars t, id = db.mvId v
+  | .var v => by
+    intro id hid
+    simp only [imageT, PySt.phiN, NPat.metavars, List.mem_singleton] at hid
+    exact ⟨v, by simp [Term.vars], hid⟩
+  | .imp a b => by
+    intro id hid
+    simp only [imageT, NPat.metavars, List.mem_append] at hid
+    rcases hid with hid | hid
+    · obtain ⟨v, hv, e⟩ := imageT_mv db tab hB hM a id hid
+      exact ⟨v, by simp [Term.vars, hv], e⟩
+    · obtain ⟨v, hv, e⟩ := imageT_mv db tab hB hM b id hid
+      exact ⟨v, by simp [Term.vars, hv], e⟩
+  | .app a b => by
+    intro id hid
+    simp only [imageT, NPat.metavars, List.mem_append] at hid
+    rcases hid with hid | hid
+    · obtain ⟨v, hv, e⟩ := imageT_mv db tab hB hM a id hid
+      exact ⟨v, by simp [Term.vars, hv], e⟩
+    · obtain ⟨v, hv, e⟩ := imageT_mv db tab hB hM b id hid
+      exact ⟨v, by simp [Term.vars, hv], e⟩
+  | .con c xs => by
+    intro id hid
+    simp only [imageT] at hid
+    have happ : id ∈ (imageAppT db tab (.sym c) xs).metavars → ∃ v ∈ Term.vars (.con c xs), id = db.mvId v := by
+      intro h
+      rcases imageAppT_mv db tab hB hM xs (.sym c) id h with h | h
+      · simp [NPat.metavars] at h
+      · simpa [Term.vars] using h
+    cases hlk : tab.lookup c with
+    | none => rw [hlk] at hid; exact happ hid
+    | some e =>
+      obtain ⟨keys, p⟩ := e
+      rw [hlk] at hid
+      simp only [] at hid
+      split at hid
+      · next hlen =>
+        have hmem := list_lookup_mem _ _ _ hlk
+        rcases plug_metavars _ p (hB _ hmem) id hid with ⟨kv, hkv, hin⟩ | ⟨hin, hnone⟩
+        · obtain ⟨v, hv, e⟩ := imageListT_mv db tab hB hM xs kv.2 (List.of_mem_zip hkv).2 id hin
+          exact ⟨v, by simpa [Term.vars] using hv, e⟩
+        · obtain ⟨q, hq⟩ := pylookup_zip_some keys (imageListT db tab xs)
+            (by rw [imageListT_length]; exact hlen.symm) id (hM _ hmem id hin)
+          rw [hq] at hnone; cases hnone
+      · exact happ hid
+theorem imageAppT_mv (db : DB) (tab : NTab) (hB : TabB0 tab) (hM : TabMv tab) : (xs : List Term) → (acc : NPat) →
+    ∀ id ∈ (imageAppT db tab acc xs).metavars, id ∈ acc.metavars ∨ ∃ v ∈ Term.varsList xs, id = db.mvId v
+  | [], acc => by intro id hid; exact Or.inl (by simpa [imageAppT] using hid)
+  | x :: xs, acc => by
+    intro id hid
+    simp only [imageAppT] at hid
+    rcases imageAppT_mv db tab hB hM xs _ id hid with h | ⟨v, hv, e⟩
+    · simp only [NPat.metavars, List.mem_append] at h
+      rcases h with h | h
+      · exact Or.inl h
+      · obtain ⟨v, hv, e⟩ := imageT_mv db tab hB hM x id h
+        exact Or.inr ⟨v, by simp [Term.varsList, hv], e⟩
+    · exact Or.inr ⟨v, by simp [Term.varsList, hv], e⟩
+theorem imageListT_mv (db : DB) (tab : NTab) (hB : TabB0 tab) (hM : TabMv tab) : (xs : List Term) →
+    ∀ q ∈ imageListT db tab xs, ∀ id ∈ q.metavars, ∃ v ∈ Term.varsList xs, id = db.mvId v
+  | [], q, h => by simp [imageListT] at h
+  | x :: xs, q, h => by
+    intro id hid
+    simp only [imageListT, List.mem_cons] at h
+    rcases h with rfl | h
+    · obtain ⟨v, hv, e⟩ := imageT_mv db tab hB hM x id hid
+      exact ⟨v, by simp [Term.varsList, hv], e⟩
+    · obtain ⟨v, hv, e⟩ := imageListT_mv db tab hB hM xs q h id hid
+      exact ⟨v, by simp [Term.varsList, hv], e⟩
+end
+
+/-- every declared notation is stated over its own variables -/
+def NotVars (cs : List Ctor) : Prop := ∀ c ∈ cs, ∀ b, c.body = some b → ∀ v ∈ Term.vars b, v ∈ c.args
+
+theorem notTabFrom_mv (db : DB) : ∀ (cs : List Ctor) (tab : NTab), NotVars cs → TabB0 tab → TabMv tab →
+    TabMv (db.notTabFrom tab cs)
+  | [], tab, _, _, h => by simpa [DB.notTabFrom] using h
+  | c :: cs, tab, hv, hB, hM => by
+    have hv' : NotVars cs := fun c' hc' => hv c' (List.mem_cons_of_mem _ hc')
+    simp only [DB.notTabFrom]
+    cases hb : c.body with
+    | none => exact notTabFrom_mv db cs tab hv' hB hM
+    | some b =>
+      apply notTabFrom_mv db cs _ hv'
+      · intro e he
+        rcases List.mem_append.mp he with he | he
+        · exact hB e he
+        · simp only [List.mem_singleton] at he
+          subst he
+          exact imageT_B0 db tab hB b
+      · intro e he
+        rcases List.mem_append.mp he with he | he
+        · exact hM e he
+        · simp only [List.mem_singleton] at he
+          subst he
+          intro id hid
+          obtain ⟨v, hvb, e⟩ := imageT_mv db tab hB hM b id hid
+          simp only [List.mem_map]
+          exact ⟨v, hv c (by simp) b hb v hvb, e.symm⟩
+
+theorem notTab_mv (db : DB) (h : NotVars db.ctors) : TabMv db.notTab :=
+  notTabFrom_mv db db.ctors [] h (fun _ h => by simp at h) (fun _ h => by simp at h)
+
+/-- a database without declared notations: the table is empty and the image is the plain one -/
+theorem notTabFrom_plain (db : DB) : ∀ (cs : List Ctor) (tab : NTab), (∀ c ∈ cs, c.body = none) →
+    db.notTabFrom tab cs = tab
+  | [], tab, _ => by simp [DB.notTabFrom]
+  | c :: cs, tab, h => by
+    simp only [DB.notTabFrom, h c (by simp)]
+    exact notTabFrom_plain db cs tab (fun c' hc' => h c' (List.mem_cons_of_mem _ hc'))
+
+theorem notTab_plain (db : DB) (h : ∀ c ∈ db.ctors, c.body = none) : db.notTab = [] :=
+  notTabFrom_plain db db.ctors [] h
+
+theorem image_con_none (db : DB) (c : Nat) (xs : List Term) (h : db.notTab.lookup c = none) :
+    image db (.con c xs) = imageApp db (.sym c) xs := by
+  rw [image_con, h]
+
+theorem image_con_some (db : DB) (c : Nat) (xs : List Term) (keys : List Nat) (p : NPat)
+    (h : db.notTab.lookup c = some (keys, p)) (hl : keys.length = xs.length) :
+    image db (.con c xs) = plug (keys.zip (imageList db xs)) p := by
+  rw [image_con, h]; simp only [hl, if_true]
+
+theorem image_con_arity (db : DB) (c : Nat) (xs : List Term) (keys : List Nat) (p : NPat)
+    (h : db.notTab.lookup c = some (keys, p)) (hl : ¬ keys.length = xs.length) :
+    image db (.con c xs) = imageApp db (.sym c) xs := by
+  rw [image_con, h]; simp only [hl, if_false]
+
+theorem image_con_plain (db : DB) (h : ∀ c ∈ db.ctors, c.body = none) (c : Nat) (xs : List Term) :
+    image db (.con c xs) = imageApp db (.sym c) xs :=
+  image_con_none db c xs (by rw [notTab_plain db h]; rfl)
 
 theorem implChain_B0 (db : DB) : ∀ (hs : List Term) (c : Term), (implChain db hs c).B0 = true := by
   intro hs
@@ -123,37 +477,58 @@ def Agrees (db : DB) (σ : List (Nat × Term)) (δ : VId → Option Pat) (vs : L
   ∀ v ∈ vs, ∃ u, σ.lookup v = some u ∧ δ (db.mvId v) = some (image db u).expand
 
 mutual
-theorem image_subst (db : DB) (σ : List (Nat × Term)) (δ : VId → Option Pat) :
+theorem image_subst (db : DB) (hM : TabMv db.notTab) (σ : List (Nat × Term)) (δ : VId → Option Pat) :
     (t : Term) → Agrees db σ δ (Term.vars t) →
     Py.inst δ (image db t).expand = (image db (t.subst σ)).expand
   | .var v, h => by
     obtain ⟨u, hu, hd⟩ := h v (by simp [Term.vars])
-    simp [image, PySt.phiN, expand, Py.inst, hd, Term.subst, hu]
+    simp [image_var, PySt.phiN, expand, Py.inst, hd, Term.subst, hu]
   | .imp a b, h => by
-    have ha := image_subst db σ δ a (fun v hv => h v (by simp [Term.vars, hv]))
-    have hb := image_subst db σ δ b (fun v hv => h v (by simp [Term.vars, hv]))
-    simp [image, expand, Py.inst, Term.subst, ha, hb]
+    have ha := image_subst db hM σ δ a (fun v hv => h v (by simp [Term.vars, hv]))
+    have hb := image_subst db hM σ δ b (fun v hv => h v (by simp [Term.vars, hv]))
+    simp [image_imp, expand, Py.inst, Term.subst, ha, hb]
   | .app a b, h => by
-    have ha := image_subst db σ δ a (fun v hv => h v (by simp [Term.vars, hv]))
-    have hb := image_subst db σ δ b (fun v hv => h v (by simp [Term.vars, hv]))
-    simp [image, expand, Py.inst, Term.subst, ha, hb]
+    have ha := image_subst db hM σ δ a (fun v hv => h v (by simp [Term.vars, hv]))
+    have hb := image_subst db hM σ δ b (fun v hv => h v (by simp [Term.vars, hv]))
+    simp [image_app, expand, Py.inst, Term.subst, ha, hb]
   | .con c xs, h => by
-    simp only [image, Term.subst]
-    exact imageApp_subst db σ δ xs (fun v hv => h v (by simpa [Term.vars] using hv)) (.sym c) (.sym c)
-      (by simp [expand, Py.inst])
-theorem imageApp_subst (db : DB) (σ : List (Nat × Term)) (δ : VId → Option Pat) :
+    have hv : Agrees db σ δ (Term.varsList xs) := fun v hv => h v (by simpa [Term.vars] using hv)
+    have happ := imageApp_subst db hM σ δ xs hv (.sym c) (.sym c) (by simp [expand, Py.inst])
+    simp only [Term.subst]
+    cases hlk : db.notTab.lookup c with
+    | none => rw [image_con_none db c _ hlk, image_con_none db c _ hlk]; exact happ
+    | some e =>
+      obtain ⟨keys, p⟩ := e
+      by_cases hl : keys.length = xs.length
+      · have hl' : keys.length = (Term.substList σ xs).length := by rw [substList_length]; exact hl
+        rw [image_con_some db c _ keys p hlk hl, image_con_some db c _ keys p hlk hl']
+        have hmem := list_lookup_mem _ _ _ hlk
+        exact plug_inst δ keys _ _ (by rw [imageList, imageListT_length]; exact hl.symm)
+          (by rw [imageList, imageListT_length]; exact hl'.symm) (imageList_subst db hM σ δ xs hv) p
+          (notTab_B0 db _ hmem) (hM _ hmem)
+      · have hl' : ¬ keys.length = (Term.substList σ xs).length := by rw [substList_length]; exact hl
+        rw [image_con_arity db c _ keys p hlk hl, image_con_arity db c _ keys p hlk hl']; exact happ
+theorem imageApp_subst (db : DB) (hM : TabMv db.notTab) (σ : List (Nat × Term)) (δ : VId → Option Pat) :
     (xs : List Term) → Agrees db σ δ (Term.varsList xs) → ∀ (acc acc' : NPat),
     Py.inst δ acc.expand = acc'.expand →
     Py.inst δ (imageApp db acc xs).expand = (imageApp db acc' (Term.substList σ xs)).expand
-  | [], _, acc, acc', h => by simpa [imageApp, Term.substList] using h
+  | [], _, acc, acc', h => by simpa [imageApp_nil, Term.substList] using h
   | x :: xs, hv, acc, acc', h => by
-    simp only [imageApp, Term.substList]
-    have hx := image_subst db σ δ x (fun v hv' => hv v (by simp [Term.varsList, hv']))
-    exact imageApp_subst db σ δ xs (fun v hv' => hv v (by simp [Term.varsList, hv'])) _ _
+    simp only [imageApp_cons, Term.substList]
+    have hx := image_subst db hM σ δ x (fun v hv' => hv v (by simp [Term.varsList, hv']))
+    exact imageApp_subst db hM σ δ xs (fun v hv' => hv v (by simp [Term.varsList, hv'])) _ _
       (by simp [expand, Py.inst, h, hx])
+theorem imageList_subst (db : DB) (hM : TabMv db.notTab) (σ : List (Nat × Term)) (δ : VId → Option Pat) :
+    (xs : List Term) → Agrees db σ δ (Term.varsList xs) →
+    (imageList db xs).map (fun q => Py.inst δ q.expand) = (imageList db (Term.substList σ xs)).map NPat.expand
+  | [], _ => by simp [imageList_nil, Term.substList]
+  | x :: xs, hv => by
+    have hx := image_subst db hM σ δ x (fun v hv' => hv v (by simp [Term.varsList, hv']))
+    have hr := imageList_subst db hM σ δ xs (fun v hv' => hv v (by simp [Term.varsList, hv']))
+    simp only [imageList_cons, Term.substList, List.map_cons, hx, hr]
 end
 
-theorem implChain_subst (db : DB) (σ : List (Nat × Term)) (δ : VId → Option Pat) :
+theorem implChain_subst (db : DB) (hM : TabMv db.notTab) (σ : List (Nat × Term)) (δ : VId → Option Pat) :
     ∀ (hs : List Term) (c : Term), Agrees db σ δ (Term.varsList (hs ++ [c])) →
     Py.inst δ (implChain db hs c).expand
       = (implChain db (hs.map (Term.subst σ)) (c.subst σ)).expand := by
@@ -162,10 +537,10 @@ theorem implChain_subst (db : DB) (σ : List (Nat × Term)) (δ : VId → Option
   | nil =>
     intro c h
     simp only [implChain, List.map_nil]
-    exact image_subst db σ δ c (fun v hv => h v (by simp [Term.varsList, hv]))
+    exact image_subst db hM σ δ c (fun v hv => h v (by simp [Term.varsList, hv]))
   | cons x hs ih =>
     intro c h
-    have hx := image_subst db σ δ x (fun v hv => h v (by simp [Term.varsList, hv]))
+    have hx := image_subst db hM σ δ x (fun v hv => h v (by simp [Term.varsList, hv]))
     have hr := ih c (fun v hv => h v (by
       simp only [List.cons_append, Term.varsList, List.mem_append]; exact Or.inr hv))
     simp [implChain, expand, Py.inst, hx, hr]
@@ -280,12 +655,41 @@ structure DB.WF (db : DB) : Prop where
   p2Mem : db.p2.1 ∈ db.floats ∧ db.p2.2.1 ∈ db.floats ∧ db.p2.2.2 ∈ db.floats
   mpNe : db.mp.1 ≠ db.mp.2
   mpMem : db.mp.1 ∈ db.floats ∧ db.mp.2 ∈ db.floats
+  /-- every declared notation is stated over its own variables -/
+  notVars : NotVars db.ctors
+
+theorem DB.WF.tabMv {db : DB} (h : db.WF) : TabMv db.notTab := notTab_mv db h.notVars
+
+theorem notWf_vars (db : DB) : ∀ (cs : List Ctor) (seen : List Nat), db.notWf seen cs = true → NotVars cs
+  | [], _, _ => by intro c hc; simp at hc
+  | c :: cs, seen, h => by
+    simp only [DB.notWf] at h
+    intro c' hc' b hb v hv
+    cases hcb : c.body with
+    | none =>
+      rw [hcb] at h
+      rcases List.mem_cons.mp hc' with rfl | hc'
+      · rw [hcb] at hb; cases hb
+      · exact notWf_vars db cs seen h c' hc' b hb v hv
+    | some b0 =>
+      rw [hcb] at h
+      simp only [Bool.and_eq_true, List.all_eq_true, List.contains_eq_mem, decide_eq_true_eq] at h
+      rcases List.mem_cons.mp hc' with rfl | hc'
+      · rw [hcb] at hb
+        cases hb
+        exact h.1.1 v hv
+      · exact notWf_vars db cs _ h.2 c' hc' b hb v hv
 
 theorem DB.wf_WF (db : DB) (h : db.wf = true) : db.WF := by
-  simp only [DB.wf, Bool.and_eq_true, List.all_eq_true, decide_eq_true_eq,
+  simp only [DB.wf, Bool.and_eq_true] at h
+  obtain ⟨h, hN⟩ := h
+  have hnv : NotVars db.ctors := by
+    simp only [DB.notOk, Bool.and_eq_true] at hN
+    exact notWf_vars db db.ctors [] hN.2
+  simp only [DB.wf0, Bool.and_eq_true, List.all_eq_true, decide_eq_true_eq,
     List.contains_eq_mem] at h
   obtain ⟨⟨⟨⟨⟨⟨⟨h1, h2⟩, h3⟩, h4⟩, h5⟩, h6⟩, h7⟩, h8⟩ := h
-  refine ⟨h1, ?_, ?_, ?_, ?_, ?_, ?_, ?_, ?_, ?_, ?_, ?_, ?_⟩
+  refine ⟨h1, ?_, ?_, ?_, ?_, ?_, ?_, ?_, ?_, ?_, ?_, ?_, ?_, hnv⟩
   · simpa using h2.1
   · simpa using h2.2
   · simpa using h3.1
@@ -298,5 +702,267 @@ theorem DB.wf_WF (db : DB) (h : db.wf = true) : db.WF := by
   · simpa using h7.2
   · simpa using h8.1
   · simpa using h8.2
+
+/-! ## the pattern of a notation's constructor axiom is the image of its body
+
+`exec_proof` pushes `get_axiom_by_name('n-is-pattern').pattern`, which the converter computes as the image of the statement
+`( n v₁ … vₖ )` (the notation's closure called on its own metavariables); `xstep` pushes `image db (.con n (args.map .var))`.
+For a well-formed database this is the image of the notation's body. -/
+
+/-- the notation symbols of a list of constructor declarations -/
+def notSymsOf (cs : List Ctor) : List Nat := (cs.filter (·.body.isSome)).map (·.sym)
+
+theorem notSymsOf_cons_none (c : Ctor) (cs : List Ctor) (h : c.body = none) : notSymsOf (c :: cs) = notSymsOf cs := by
+  simp [notSymsOf, List.filter_cons, h]
+theorem notSymsOf_cons_some (c : Ctor) (cs : List Ctor) (b : Term) (h : c.body = some b) :
+    notSymsOf (c :: cs) = c.sym :: notSymsOf cs := by
+  simp [notSymsOf, List.filter_cons, h]
+
+theorem notTabFrom_keys (db : DB) : ∀ (cs : List Ctor) (tab : NTab),
+    (db.notTabFrom tab cs).map (·.1) = tab.map (·.1) ++ notSymsOf cs
+  | [], tab => by simp [DB.notTabFrom, notSymsOf]
+  | c :: cs, tab => by
+    simp only [DB.notTabFrom]
+    cases hb : c.body with
+    | none => simp only []; rw [notTabFrom_keys db cs tab, notSymsOf_cons_none c cs hb]
+    | some b =>
+      simp only []
+      rw [notTabFrom_keys db cs _, notSymsOf_cons_some c cs b hb]
+      simp
+
+theorem notTabFrom_prefix (db : DB) : ∀ (cs : List Ctor) (tab : NTab), ∃ ext, db.notTabFrom tab cs = tab ++ ext
+  | [], tab => ⟨[], by simp [DB.notTabFrom]⟩
+  | c :: cs, tab => by
+    simp only [DB.notTabFrom]
+    cases hb : c.body with
+    | none => exact notTabFrom_prefix db cs tab
+    | some b =>
+      obtain ⟨ext, he⟩ := notTabFrom_prefix db cs (tab ++ [(c.sym, c.args.map db.mvId, imageT db tab b)])
+      exact ⟨(c.sym, c.args.map db.mvId, imageT db tab b) :: ext, by simp only []; rw [he]; simp⟩
+
+theorem notTabFrom_append (db : DB) : ∀ (pre post : List Ctor) (tab : NTab),
+    db.notTabFrom tab (pre ++ post) = db.notTabFrom (db.notTabFrom tab pre) post
+  | [], post, tab => by simp [DB.notTabFrom]
+  | c :: pre, post, tab => by
+    simp only [List.cons_append, DB.notTabFrom]
+    cases hb : c.body with
+    | none => exact notTabFrom_append db pre post tab
+    | some b => exact notTabFrom_append db pre post _
+
+theorem list_lookup_append_mem {β : Type} : ∀ (l ext : List (Nat × β)) (a : Nat), a ∈ l.map (·.1) →
+    (l ++ ext).lookup a = l.lookup a := by
+  intro l
+  induction l with
+  | nil => intro ext a h; simp at h
+  | cons x l ih =>
+    intro ext a h
+    obtain ⟨k, v⟩ := x
+    simp only [List.cons_append, List.lookup_cons]
+    by_cases hk : a = k
+    · subst hk; simp
+    · have : (a == k) = false := by simp [hk]
+      rw [this]
+      apply ih
+      simp only [List.map_cons, List.mem_cons] at h
+      rcases h with h | h
+      · exact absurd h hk
+      · exact h
+
+theorem list_lookup_append_not_mem {β : Type} : ∀ (l ext : List (Nat × β)) (a : Nat), a ∉ l.map (·.1) →
+    (l ++ ext).lookup a = ext.lookup a := by
+  intro l
+  induction l with
+  | nil => intro ext a _; rfl
+  | cons x l ih =>
+    intro ext a h
+    obtain ⟨k, v⟩ := x
+    simp only [List.map_cons, List.mem_cons, not_or] at h
+    simp only [List.cons_append, List.lookup_cons]
+    have : (a == k) = false := by simp [h.1]
+    rw [this]
+    exact ih ext a h.2
+
+theorem list_lookup_not_mem {β : Type} (l : List (Nat × β)) (a : Nat) (h : a ∉ l.map (·.1)) : l.lookup a = none := by
+  have := list_lookup_append_not_mem l [] a h
+  simpa using this
+
+mutual
+/-- the image of a term depends on the table only through the term's symbols -/
+theorem imageT_congr (db : DB) (tab tab' : NTab) : (t : Term) → (∀ s ∈ Term.syms t, tab.lookup s = tab'.lookup s) →
+    imageT db tab t = imageT db tab' t
+  | .var v, _ => by simp [imageT]
+  | .imp a b, h => by
+    simp only [imageT]
+    rw [imageT_congr db tab tab' a (fun s hs => h s (by simp [Term.syms, hs])),
+      imageT_congr db tab tab' b (fun s hs => h s (by simp [Term.syms, hs]))]
+  | .app a b, h => by
+    simp only [imageT]
+    rw [imageT_congr db tab tab' a (fun s hs => h s (by simp [Term.syms, hs])),
+      imageT_congr db tab tab' b (fun s hs => h s (by simp [Term.syms, hs]))]
+  | .con c xs, h => by
+    have hxs : ∀ s ∈ Term.symsList xs, tab.lookup s = tab'.lookup s := fun s hs => h s (by simp [Term.syms, hs])
+    simp only [imageT]
+    rw [← h c (by simp [Term.syms]), imageListT_congr db tab tab' xs hxs]
+    have happ := fun acc => imageAppT_congr db tab tab' xs hxs acc
+    cases tab.lookup c with
+    | none => exact happ _
+    | some e => simp only [happ]
+theorem imageAppT_congr (db : DB) (tab tab' : NTab) : (xs : List Term) →
+    (∀ s ∈ Term.symsList xs, tab.lookup s = tab'.lookup s) → ∀ acc : NPat,
+    imageAppT db tab acc xs = imageAppT db tab' acc xs
+  | [], _, acc => by simp [imageAppT]
+  | x :: xs, h, acc => by
+    simp only [imageAppT]
+    rw [imageT_congr db tab tab' x (fun s hs => h s (by simp [Term.symsList, hs]))]
+    exact imageAppT_congr db tab tab' xs (fun s hs => h s (by simp [Term.symsList, hs])) _
+theorem imageListT_congr (db : DB) (tab tab' : NTab) : (xs : List Term) →
+    (∀ s ∈ Term.symsList xs, tab.lookup s = tab'.lookup s) →
+    imageListT db tab xs = imageListT db tab' xs
+  | [], _ => by simp [imageListT]
+  | x :: xs, h => by
+    simp only [imageListT]
+    rw [imageT_congr db tab tab' x (fun s hs => h s (by simp [Term.symsList, hs])),
+      imageListT_congr db tab tab' xs (fun s hs => h s (by simp [Term.symsList, hs]))]
+end
+
+/-- calling a notation on its own metavariables gives the body's pattern back -/
+theorem pylookup_zip_id (f : Nat → Nat) : ∀ (vs : List Nat) (id : Nat) (q : NPat),
+    Py.lookup ((vs.map f).zip (vs.map fun v => PySt.phiN (f v))) id = some q → q = PySt.phiN id := by
+  intro vs
+  induction vs with
+  | nil => intro id q h; simp [Py.lookup] at h
+  | cons v vs ih =>
+    intro id q h
+    simp only [List.map_cons, List.zip_cons_cons, Py.lookup] at h
+    split at h
+    · next e => cases h; rw [e]
+    · exact ih id q h
+
+theorem plug_id (f : Nat → Nat) (vs : List Nat) : (p : NPat) → p.B0 = true →
+    plug ((vs.map f).zip (vs.map fun v => PySt.phiN (f v))) p = p
+  | .sym _, _ => by simp [plug]
+  | .mv id ef sf ps ns hs, h => by
+    simp only [B0, Bool.and_eq_true, List.isEmpty_iff] at h
+    obtain ⟨⟨⟨⟨rfl, rfl⟩, rfl⟩, rfl⟩, rfl⟩ := h
+    simp only [plug]
+    cases hl : Py.lookup ((vs.map f).zip (vs.map fun v => PySt.phiN (f v))) id with
+    | none => rfl
+    | some q => simp only []; rw [pylookup_zip_id f vs id q hl]; rfl
+  | .imp l r, h => by
+    simp only [B0, Bool.and_eq_true] at h
+    simp [plug, plug_id f vs l h.1, plug_id f vs r h.2]
+  | .app l r, h => by
+    simp only [B0, Bool.and_eq_true] at h
+    simp [plug, plug_id f vs l h.1, plug_id f vs r h.2]
+  | .evar _, h => by simp [B0] at h
+  | .svar _, h => by simp [B0] at h
+  | .ex _ _, h => by simp [B0] at h
+  | .mu _ _, h => by simp [B0] at h
+  | .esub _ _ _, h => by simp [B0] at h
+  | .ssub _ _ _, h => by simp [B0] at h
+  | .inst _ _, h => by simp [B0] at h
+
+theorem imageList_vars (db : DB) : ∀ vs : List Nat,
+    imageList db (vs.map .var) = vs.map fun v => PySt.phiN (db.mvId v)
+  | [] => by simp [imageList_nil]
+  | v :: vs => by simp [imageList_cons, image_var, imageList_vars db vs]
+
+/-- the symbols of a notation's body: notation symbols declared earlier, or no notation symbols at all -/
+theorem notWf_body (db : DB) : ∀ (pre : List Ctor) (seen : List Nat) (c : Ctor) (b : Term) (post : List Ctor),
+    db.notWf seen (pre ++ c :: post) = true → c.body = some b →
+    ∀ s ∈ Term.syms b, s ∈ seen ++ notSymsOf pre ∨ s ∉ db.notSyms
+  | [], seen, c, b, post, h, hb => by
+    simp only [List.nil_append, DB.notWf, hb, Bool.and_eq_true, List.all_eq_true, Bool.or_eq_true,
+      List.contains_eq_mem, decide_eq_true_eq, Bool.not_eq_true', decide_eq_false_iff_not] at h
+    intro s hs
+    rcases h.1.2 s hs with h' | h'
+    · exact Or.inl (by simp [notSymsOf, h'])
+    · exact Or.inr h'
+  | c' :: pre, seen, c, b, post, h, hb => by
+    simp only [List.cons_append, DB.notWf] at h
+    intro s hs
+    cases hb' : c'.body with
+    | none =>
+      rw [hb'] at h
+      rw [notSymsOf_cons_none c' pre hb']
+      exact notWf_body db pre seen c b post h hb s hs
+    | some b' =>
+      rw [hb'] at h
+      simp only [Bool.and_eq_true] at h
+      rw [notSymsOf_cons_some c' pre b' hb']
+      rcases notWf_body db pre _ c b post h.2 hb s hs with h' | h'
+      · exact Or.inl (by simpa [List.append_assoc] using h')
+      · exact Or.inr h'
+
+theorem image_notation_axiom (db : DB) (hwf : db.wf = true) (k : Nat) (c : Ctor) (b : Term)
+    (hk : db.ctors[k]? = some c) (hb : c.body = some b) :
+    image db (.con c.sym (c.args.map .var)) = image db b := by
+  simp only [DB.wf, DB.notOk, Bool.and_eq_true] at hwf
+  obtain ⟨_, huniq, hord⟩ := hwf
+  -- the declarations before and after `c`
+  have hlt : k < db.ctors.length := by
+    rcases Nat.lt_or_ge k db.ctors.length with h | h
+    · exact h
+    · rw [List.getElem?_eq_none h] at hk; cases hk
+  have hget : db.ctors[k] = c := by
+    rw [List.getElem?_eq_getElem hlt] at hk; exact Option.some.inj hk
+  have hsplit : db.ctors = db.ctors.take k ++ c :: db.ctors.drop (k + 1) := by
+    rw [← hget]; simp
+  generalize hpre : db.ctors.take k = pre at hsplit
+  generalize hpost : db.ctors.drop (k + 1) = post at hsplit
+  -- the symbol of `c` is not declared as a notation before
+  have hcm : c ∈ db.ctors := List.mem_of_getElem? hk
+  have hu := List.all_eq_true.mp huniq c hcm
+  simp only [hb, Option.isNone_some, Bool.false_or, beq_iff_eq] at hu
+  have hnotpre : c.sym ∉ notSymsOf pre := by
+    intro hin
+    simp only [notSymsOf, List.mem_map, List.mem_filter] at hin
+    obtain ⟨c', ⟨hc', _⟩, hs⟩ := hin
+    rw [hsplit, List.filter_append, List.filter_cons] at hu
+    simp only [beq_self_eq_true, if_true, List.length_append, List.length_cons] at hu
+    have : 0 < (pre.filter (·.sym == c.sym)).length :=
+      List.length_pos_of_mem (List.mem_filter.mpr ⟨hc', by simp [hs]⟩)
+    omega
+  -- the table
+  have htab : db.notTab = db.notTabFrom (db.notTabFrom [] pre ++ [(c.sym, c.args.map db.mvId, imageT db (db.notTabFrom [] pre) b)]) post := by
+    unfold DB.notTab
+    rw [hsplit, notTabFrom_append]
+    simp only [DB.notTabFrom, hb]
+  obtain ⟨ext, hext⟩ := notTabFrom_prefix db post
+    (db.notTabFrom [] pre ++ [(c.sym, c.args.map db.mvId, imageT db (db.notTabFrom [] pre) b)])
+  have hkeysPre : (db.notTabFrom [] pre).map (·.1) = notSymsOf pre := by
+    rw [notTabFrom_keys]; simp
+  have hlk : db.notTab.lookup c.sym = some (c.args.map db.mvId, imageT db (db.notTabFrom [] pre) b) := by
+    rw [htab, hext, List.append_assoc, list_lookup_append_not_mem _ _ _ (by rw [hkeysPre]; exact hnotpre)]
+    simp [List.lookup_cons]
+  have hB : (imageT db (db.notTabFrom [] pre) b).B0 = true :=
+    imageT_B0 db _ (notTabFrom_B0 db pre [] (fun _ h => by simp at h)) b
+  rw [image_con_some db c.sym _ _ _ hlk (by simp), imageList_vars, plug_id db.mvId c.args _ hB]
+  -- the body's symbols are looked up alike in the scope of the earlier notations and in the final scope
+  unfold image
+  apply imageT_congr
+  intro s hs
+  have hallkeys : db.notTab.map (·.1) = db.notSyms := by
+    unfold DB.notTab; rw [notTabFrom_keys]; simp [notSymsOf, DB.notSyms]
+  by_cases hin : s ∈ notSymsOf pre
+  · rw [htab, hext, List.append_assoc]
+    exact (list_lookup_append_mem _ _ s (by rw [hkeysPre]; exact hin)).symm
+  · have hnot : s ∉ db.notSyms := by
+      rcases notWf_body db pre [] c b post (by rw [← hsplit]; exact hord) hb s hs with h | h
+      · exact absurd (by simpa using h) hin
+      · exact h
+    rw [list_lookup_not_mem _ s (by rw [hkeysPre]; exact hin), list_lookup_not_mem _ s (by rw [hallkeys]; exact hnot)]
+
+/-- a database without declared notations meets the notation clauses of `DB.wf` -/
+theorem notWf_plain (db : DB) : ∀ (cs : List Ctor) (seen : List Nat), (∀ c ∈ cs, c.body = none) →
+    db.notWf seen cs = true
+  | [], _, _ => by simp [DB.notWf]
+  | c :: cs, seen, h => by
+    simp only [DB.notWf, h c (by simp)]
+    exact notWf_plain db cs seen (fun c' hc' => h c' (List.mem_cons_of_mem _ hc'))
+
+theorem DB.notOk_plain (db : DB) (h : ∀ c ∈ db.ctors, c.body = none) : db.notOk = true := by
+  simp only [DB.notOk, Bool.and_eq_true, List.all_eq_true]
+  exact ⟨fun c hc => by simp [h c hc], notWf_plain db db.ctors [] h⟩
 
 end MM
